@@ -21,8 +21,8 @@ class PathAbort(BaseException):
     """Current path is infeasible (or cut by an assumption)."""
 
 
-QUERY_TIMEOUT_MS = int(os.environ.get("SX_QUERY_TIMEOUT_MS", "60000"))
-FORK_TIMEOUT_MS = int(os.environ.get("SX_FORK_TIMEOUT_MS", "10000"))
+QUERY_TIMEOUT_MS = int(os.environ.get("SX_QUERY_TIMEOUT_MS", "150000"))
+FORK_TIMEOUT_MS = int(os.environ.get("SX_FORK_TIMEOUT_MS", "20000"))
 JOB_BUDGET_S = float(os.environ.get("SX_JOB_BUDGET_S", "0") or 0)
 MAX_PATHS = int(os.environ.get("SX_MAX_PATHS", "200000"))
 
